@@ -536,3 +536,101 @@ func replaySizeOf(rc *runCtx, h *harness, v *interp.Violation, file string) (boo
 	}
 	return false, "native: same-named types of different sizes are sized independently (" + lastLines(out, 2) + ")"
 }
+
+// ---- C03 rule run context: native confirmation with a user rule that looks at the package path.
+const rulePkgTest = `package checkers_test
+
+import (
+	"fmt"
+	"go/ast"
+	"go/importer"
+	"go/parser"
+	"go/token"
+	"go/types"
+	"os"
+	"path/filepath"
+	"testing"
+
+	"github.com/go-critic/go-critic/checkers"
+	"github.com/go-critic/go-critic/linter"
+)
+
+const gsxPkgRule = "package gorules\n\nimport \"github.com/quasilyte/go-ruleguard/dsl\"\n\nfunc inB(m dsl.Matcher) {\n\tm.Match(` + "`gsxTarget($x)`" + `).Where(m.File().PkgPath.Matches(\"^b$\")).Report(\"target in package b\")\n}\n"
+
+func TestGSXRulePkg(t *testing.T) {
+	_ = checkers.InitEmbeddedRules
+	dir := t.TempDir()
+	rules := filepath.Join(dir, "rules.go")
+	os.WriteFile(rules, []byte(gsxPkgRule), 0o644)
+	fset := token.NewFileSet()
+	load := func(path string) (*ast.File, *types.Info, *types.Package) {
+		f, err := parser.ParseFile(fset, path+".go", "package "+path+"\n\nfunc gsxTarget(x int) {}\n\nfunc f() { gsxTarget(1) }\n", 0)
+		if err != nil {
+			t.Fatal(err)
+		}
+		tinfo := &types.Info{Types: map[ast.Expr]types.TypeAndValue{}, Defs: map[*ast.Ident]types.Object{}, Uses: map[*ast.Ident]types.Object{},
+			Implicits: map[ast.Node]types.Object{}, Selections: map[*ast.SelectorExpr]*types.Selection{}, Scopes: map[ast.Node]*types.Scope{}}
+		pkg, err := (&types.Config{Importer: importer.Default()}).Check(path, fset, []*ast.File{f}, tinfo)
+		if err != nil {
+			t.Fatal(err)
+		}
+		return f, tinfo, pkg
+	}
+	var info *linter.CheckerInfo
+	for _, x := range linter.GetCheckersInfo() {
+		if x.Name == "ruleguard" {
+			info = x
+		}
+	}
+	info.Params["rules"].Value = rules
+	run := func(order []string) string {
+		ctx := linter.NewContext(fset, types.SizesFor("gc", "amd64"))
+		c, err := linter.NewChecker(ctx, info)
+		if err != nil {
+			t.Fatal(err)
+		}
+		out := ""
+		for _, p := range order {
+			f, tinfo, pkg := load(p)
+			ctx.SetPackageInfo(tinfo, pkg)
+			ctx.SetFileInfo(p+".go", f)
+			out = fmt.Sprint(len(c.Check(f)))
+		}
+		return out // diagnostics of the last file
+	}
+	fresh, after := run([]string{"b"}), run([]string{"a", "b"})
+	fresh2, after2 := run([]string{"a"}), run([]string{"b", "a"})
+	if fresh != after || fresh2 != after2 {
+		fmt.Printf("GSX-RULEPKG-DIFF diagnostics for package b: %s fresh, %s after package a; for package a: %s fresh, %s after package b\n", fresh, after, fresh2, after2)
+		return
+	}
+	fmt.Println("GSX-RULEPKG-SAME", fresh, fresh2)
+}
+`
+
+func replayRulePkg(rc *runCtx, h *harness, v *interp.Violation, file string) (bool, string) {
+	if v.Kind == "panic" {
+		return false, "engine model"
+	}
+	tmp, err := os.MkdirTemp("", "gsx-rulepkg-")
+	if err != nil {
+		return false, err.Error()
+	}
+	defer os.RemoveAll(tmp)
+	tf := filepath.Join(tmp, "zz_verif_rulepkg_test.go")
+	os.WriteFile(tf, []byte(rulePkgTest), 0o644)
+	out, err := runGoTest(tmp, map[string]string{filepath.Join(repoDir, "checkers", "zz_verif_rulepkg_test.go"): tf},
+		[]string{"-v", "-vet=off", "-count=1", "-run", "^TestGSXRulePkg$", "./checkers"}, nil)
+	if err != nil {
+		return false, err.Error()
+	}
+	for _, l := range strings.Split(out, "\n") {
+		if strings.HasPrefix(l, "GSX-RULEPKG-DIFF") {
+			return true, strings.TrimPrefix(l, "GSX-RULEPKG-DIFF ")
+		}
+	}
+	if strings.Contains(out, "GSX-RULEPKG-SAME 1 0") {
+		return false, "native: the user rule sees the package of the file being analysed in both orders"
+	}
+	return false, "native run inconclusive: " + lastLines(out, 3)
+}
